@@ -78,6 +78,9 @@ func shape(h *ref.PES) string {
 	return fmt.Sprintf("stream_id=%#02x optional_header=%v pts_dts=%d extra=%d payload=%d dai=%v", h.StreamID, !ref.PESNoOptionalHeader(h.StreamID), h.PTSDTS, len(h.Extra), len(h.Payload), h.DataAligned())
 }
 
+// keptHeaders: decoded PES headers that are looked at again after many later ones were decoded.
+var keptHeaders mon.Keeper
+
 func checkHeader(c *mon.Ctx, h *ref.PES) (b []byte, hdrEnd int, ok bool) {
 	b, hdrEnd = h.Bytes()
 	b = gen.SlackBy(b, gen.HashString(string(b)))
@@ -146,6 +149,20 @@ func checkHeader(c *mon.Ctx, h *ref.PES) (b []byte, hdrEnd int, ok bool) {
 		}
 		if h.PTSDTS == 3 && ph.DTS() != h.DTS {
 			bad("dts-value", fmt.Sprintf("DTS()=%d, encoded %d", ph.DTS(), h.DTS))
+		}
+	}
+	// an object of its own is kept and looked at again after 1 ... 4095 later headers were decoded
+	if hk := gen.HashString(string(snap)); ok && hk%4 == 0 && !ref.PESNoOptionalHeader(h.StreamID) {
+		own := append([]byte{}, snap...)
+		if pk, err := pes.NewPESHeader(own); err == nil && pk != nil {
+			truth, end := *h, hdrEnd
+			keptHeaders.Keep(c, "decoded PES header", gen.New(hk, 7), func() string {
+				if pk.StreamId() != truth.StreamID || pk.DataAligned() != truth.DataAligned() || pk.HasPTS() != (truth.PTSDTS >= 2) || pk.HasDTS() != (truth.PTSDTS == 3) ||
+					(truth.PTSDTS >= 2 && pk.PTS() != truth.PTS) || (truth.PTSDTS == 3 && pk.DTS() != truth.DTS) || !bytes.Equal(pk.Data(), own[end:]) {
+					return fmt.Sprintf("it reports stream id %#02x, flags %v/%v/%v, PTS %d, DTS %d, %d data bytes; it was decoded from %s", pk.StreamId(), pk.DataAligned(), pk.HasPTS(), pk.HasDTS(), pk.PTS(), pk.DTS(), len(pk.Data()), shape(&truth))
+				}
+				return ""
+			})
 		}
 	}
 	// the header is rendered as text (every method of the object that returns one string): a read like the getters
@@ -343,6 +360,7 @@ func packetLevel(c *mon.Ctx, r *gen.Rand, h *ref.PES, b []byte, hdrEnd int) {
 func run(c *mon.Ctx) {
 	c.Rule("PES starts built by a reference builder: all 256 stream ids x PTS_DTS_flags {00,10,11} x flag bytes x PES_header_data_length = needed..255 (extra optional / stuffing bytes) x payload 0..23 bytes, each also carried in a transport packet (PUSI on/off, damaged start code, no payload flag) and short payloads 0..5 bytes. distinct non-trivial = distinct (stream id, PTS_DTS_flags, has extra header bytes, has payload, data_alignment) for headers with at least one optional or payload byte")
 	c.Assume("stream_id 0xBC (program_stream_map) is exercised for totality only; AlignedPUSI is asserted only for stream ids that carry the optional header and complete headers (>= 9 bytes)")
+	c.Floor("kept.decoded PES header.looked_at_again_after_64_or_more_later_objects", 200)
 	c.Floor("packet.adaptation_field_length_0", 200)
 	c.Floor("front_of_the_buffer_decoded_first", 1000)
 	c.Floor("packet.pes_start_behind_private_data_and_extension", 300)
